@@ -1,7 +1,12 @@
-// C14 — minimal reproducers of the open findings (see FINDINGS.md). The
-// committed replays under /verif/replays/C14/open/ are produced from these by
+// C14 — minimal reproducers of the findings (see FINDINGS.md). Both findings
+// are repaired in /repo (F17: 342098c, operand-stack overflow: 8f34add), so
+// the committed replays live under /verif/replays/C14/fixed/ (TestRegressions:
+// must pass). They are produced from the table below by
 //
-//	C14_WRITE_OPEN=/verif/replays/C14/open go test -tags verif -run TestWriteOpenReplays ./c14
+//	C14_WRITE_REPLAYS=/verif/replays/C14/fixed go test -tags verif -run TestWriteReplays ./c14
+//
+// (for a finding that is still open: the directory replays/C14/open; the
+// writer then insists that the reproducer fails on the tree under test).
 package c14
 
 import (
@@ -14,7 +19,7 @@ import (
 
 type reproducer struct {
 	finding, name, test string
-	main                string // with « » around the failing statement and ‹i … › around the statement of call i (innermost = 0)
+	main                string // with « » around the failing statement, ‹i … › around the statement of call i (innermost = 0), ⟦ ⟧ around the counter statement of an overflow template
 	p                   casePayload
 	overflow            bool
 }
@@ -22,18 +27,23 @@ type reproducer struct {
 var reproducers = []reproducer{
 	{finding: findingDivZero, name: "quo-in-function", test: "TestErrorLocations",
 		main: "f := func(x) {\n\t«return x / 0»\n}\n‹0f(1)›\n",
-		p:    casePayload{Kind: "div-zero:/0", MsgRe: "(?i)divi[ds]", Meta: caseMeta{Group: "div-zero", Depth: 1, Scenario: "main", FailHome: "main", FailLines: 1}}},
+		p:    casePayload{Kind: "div-zero:/0", MsgRe: "^integer division by zero$", Sentinel: "ErrDivisionByZero", Meta: caseMeta{Group: "div-zero", Depth: 1, Scenario: "main", FailHome: "main", FailLines: 1}}},
 	{finding: findingDivZero, name: "rem-top-level", test: "TestErrorLocations",
 		main: "x := 7\n«y := x %\n\t0»\n",
-		p:    casePayload{Kind: "div-zero:%0", MsgRe: "(?i)divi[ds]", Meta: caseMeta{Group: "div-zero", Depth: 0, Scenario: "main", FailHome: "main", FailLines: 2}}},
+		p:    casePayload{Kind: "div-zero:%0", MsgRe: "^integer division by zero$", Sentinel: "ErrDivisionByZero", Meta: caseMeta{Group: "div-zero", Depth: 0, Scenario: "main", FailHome: "main", FailLines: 2}}},
 	{finding: findingOpStack, name: "one-parameter-recursion", test: "TestOverflowLocations", overflow: true,
-		main: "f := func(n) {\n\thtick()\n\t«return 1 + f(n + 1)»\n}\n‹0f(1)›\n",
-		p:    casePayload{Kind: "frame-overflow-wide:0", MsgRe: "(?i)overflow", Sentinel: "ErrStackOverflow", Meta: caseMeta{Group: "frame-overflow-wide", Depth: 0, Scenario: "main", FailHome: "main", FailLines: 1}}},
+		main: "f := func(n) {\n\t⟦htick()⟧\n\t«return 1 + f(n + 1)»\n}\n‹0f(1)›\n",
+		p:    casePayload{Kind: "frame-overflow-wide:0", MsgRe: "^stack overflow$", Sentinel: "ErrStackOverflow", Meta: caseMeta{Group: "frame-overflow-wide", Depth: 0, Scenario: "main", FailHome: "main", FailLines: 1}}},
+	// the operand stack runs out in the counter statement of the newest call
+	// (3 slots per frame, the argument is the last push of the caller)
+	{finding: findingOpStack, name: "overflow-in-first-statement-of-newest-call", test: "TestOverflowLocations", overflow: true,
+		main: "f := func(n) {\n\t⟦htick()⟧\n\t«return [1,\n\t\tf(n)]»\n}\n‹0f(1)›\n",
+		p:    casePayload{Kind: "frame-overflow-wide:1", MsgRe: "^stack overflow$", Sentinel: "ErrStackOverflow", Meta: caseMeta{Group: "frame-overflow-wide", Depth: 0, Scenario: "main", FailHome: "main", FailLines: 2}}},
 }
 
 func (r reproducer) payload() *casePayload {
 	src := r.main
-	src = replaceAll(src, "«", "\x00S900;", "»", "\x00E900;", "‹0", "\x00S0;", "›", "\x00E0;")
+	src = replaceAll(src, "«", "\x00S900;", "»", "\x00E900;", "‹0", "\x00S0;", "›", "\x00E0;", "⟦", "\x00S901;", "⟧", "\x00E901;")
 	text, spans, err := strip("(main)", src)
 	if err != nil {
 		panic(err)
@@ -41,6 +51,9 @@ func (r reproducer) payload() *casePayload {
 	p := r.p
 	p.Main = text
 	p.Fail = spans[900]
+	if s, ok := spans[901]; ok {
+		p.Tick = &s
+	}
 	if r.overflow {
 		p.Trace = append(p.Trace, traceItem{Span: spans[900], Repeat: -1})
 	}
@@ -57,11 +70,12 @@ func replaceAll(s string, pairs ...string) string {
 	return s
 }
 
-func TestWriteOpenReplays(t *testing.T) {
-	dir := os.Getenv("C14_WRITE_OPEN")
+func TestWriteReplays(t *testing.T) {
+	dir := os.Getenv("C14_WRITE_REPLAYS")
 	if dir == "" {
-		t.Skip("C14_WRITE_OPEN not set")
+		t.Skip("C14_WRITE_REPLAYS not set")
 	}
+	open := filepath.Base(dir) == "open"
 	for _, r := range reproducers {
 		p := r.payload()
 		vs, infra := p.checkEach()
@@ -77,9 +91,12 @@ func TestWriteOpenReplays(t *testing.T) {
 				msg += v
 			}
 		}
-		if msg == "" {
-			t.Errorf("%s--%s does not fail on this tree", r.finding, r.name)
+		if open != (msg != "") {
+			t.Errorf("%s--%s: fails on this tree: %v (writing to %s)", r.finding, r.name, msg != "", dir)
 			continue
+		}
+		if msg == "" {
+			msg = "(repaired in /repo; regression replay) " + r.finding
 		}
 		b, _ := json.MarshalIndent(map[string]interface{}{"property": "C14", "test": r.test, "message": msg, "payload": p}, "", " ")
 		if err := os.WriteFile(filepath.Join(dir, r.finding+"--"+r.name+".json"), append(b, '\n'), 0o644); err != nil {
